@@ -326,6 +326,12 @@ def make_check(hname, rname, bound, report):
             report.outcome("deadlock")
             report.violation({"check": "C12", "problem": "deadlock"}, f"{hname}/{rname}: deadlock at {outcome[1]} schedule {schedule}", case)
             return
+        if outcome[0] == "stuck":
+            report.outcome("stuck")
+            report.violation({"check": "C12", "problem": "thread_blocked_outside_the_scheduler"},
+                             f"{hname}/{rname}: thread {outcome[1]} made no progress for {sched.STEP_TIMEOUT} s (blocked on a lock the "
+                             f"other, parked thread holds, or looping): schedule {schedule}", case)
+            return
         if outcome[0] == "livelock":
             report.outcome("livelock")
             report.violation({"check": "C12", "problem": "livelock"}, f"{hname}/{rname}: horizon exceeded, schedule {schedule}", case)
@@ -443,6 +449,8 @@ def replay(case):
         outcome = ("done", results)
     except sched.Deadlock as e:
         outcome = ("deadlock", repr(e.args[0]))
+    except sched.Stuck as e:
+        outcome = ("stuck", repr(e.args[0]))
     make_check(hname, rname, case.get("bound", 0), report)(outcome, ex, ctx, prefix)
     for v in report.violations.values():
         return v["what"]
